@@ -407,3 +407,12 @@ LAWS = [
     Law("cone_cylinder", lambda tier: cone_case(tier), run_cone, cone_nontrivial, cone_labels, {"quick": 1200, "thorough": 25000},
         "Cone / Cylinder contain exactly the parametrised Cartesian locus, axis directions in all octants", shard=300, mandatory=("generic-axis",)),
 ]
+
+
+# ------------------------------------------------------------------------------------------- equivalent ways of asking
+from .. import forms as _forms  # noqa: E402
+
+LAWS.append(
+    Law("argument_forms", lambda tier: _forms.forms_case_strategy("C13")(tier), _forms.run_forms("C13"), lambda c: True, lambda c: [c["entry"], f"d{c['d']}"], {"quick": 600, "thorough": 8000},
+        "the same object asked for in several ways (positional / keyword arguments, other representatives of point arguments, int / float / numpy scalars, defaults given explicitly, symmetric argument orders): all forms agree", shard=300)
+)
